@@ -27,6 +27,7 @@ func c07Compile(c *Ctx) {
 	}
 	r.Rule += " || compile-time half: (a) generated calls (1-3 typed parameters, bindings built type-directed with near-misses and references into pipeline inputs / a producer call made singly, array-mapped or map-mapped): accept/reject of the real compiler vs the model's checkCall, error location, and for accepted reference-free literals real EncodeJSON+IsValidJson vs the model's eval/valid; (b) every single-point ill-typed mutation (by construction, double-checked by the model) of every single-line binding of accepted programs (GenProgram, repo *.mro, corpus) must be rejected with an error located at the binding or its call; non-trivial (a) = case has a reference, a composite literal or a split"
 	c07Corpus(c)
+	c07Witnesses(c)
 	n := 2500
 	if c.Thorough {
 		n = 40000
